@@ -121,6 +121,10 @@ func (StoreLinScenario) GenCase(r *rand.Rand, prop string) interface{} {
 	}
 	c.GenIDs = c.Backend == "mock" && chance(r, 50)
 	ids := []string{"a", "b", "c"}
+	if c.Prefix != "" {
+		// an id that looks like another id with the store's prefix on it
+		ids = append(ids, c.Prefix+".a")
+	}
 	val := 0
 	ntasks := 2 + r.IntN(3)
 	for t := 0; t < ntasks; t++ {
